@@ -28,7 +28,7 @@ ASSUMPTIONS = [
     "buffer sizes are constant per tokenisation, as the statement says (varying sizes are exercised under C01)",
     "work bound: steps <= 60*(len+2) monitored events",
 ]
-PROBES = ["tokenized again under settings.STRICT", "token of 32 K bytes or more", "very long token", "refill inside string escape", "refill inside hex name escape", "refill inside number", "eof flush produced token"]
+PROBES = ["tens of thousands of distinct symbols", "tokenized again under settings.STRICT", "token of 32 K bytes or more", "very long token", "refill inside string escape", "refill inside hex name escape", "refill inside number", "eof flush produced token"]
 TIERS = {
     "quick": {"batches": 16, "runs": 25000, "budget_s": 40, "kmax": 9, "sweep_len": 3},
     "thorough": {"batches": 64, "runs": 40000, "budget_s": 900, "kmax": 33, "sweep_len": 4},
@@ -192,6 +192,13 @@ def run(tape, ctx, item=None):
     if item is not None:
         data = bytes.fromhex(item["data"])
         sizes = [0] + list(range(1, min(len(data), kmax) + 2))
+    elif tape.coin(1, 6000, "manysymbols"):
+        # tens of thousands of distinct names and keywords in one input: the intern tables grow, the symbols stay what they are
+        n = tape.pick([40000, 70000], "manysymbols.n")
+        base = tape.draw(1000, "manysymbols.base")
+        data = b" ".join((b"/n%dx%d" if i % 2 else b"k%dx%d") % (base, i) for i in range(n))
+        sizes = [0, 4097]
+        ctx.probe("tens of thousands of distinct symbols")
     elif tape.coin(1, 4000, "huge"):
         # a run of one lexical class tens of thousands of bytes long (lengths around powers of two, where fixed
         # limits tend to sit): the token sequence may still not depend on the buffer size
